@@ -33,6 +33,8 @@ pub const PROBES: &[&str] = &[
     "window_straddles_jump",
     "window_ends_exactly_at_jump",
     "window_zero_length",
+    "window_backwards_in_absolute_time_forwards_on_the_wall_clock",
+    "open_ended_stream_compared",
     "observer_zone_jumps_too",
     "context_with_coordinates",
     "context_with_interval_bound",
@@ -453,11 +455,18 @@ where
     }
 
     // --- I3: the interval stream over [u, u + window) ---
-    let v = u + window.max(0);
+    // (a negative window is a range given backwards in absolute time; inside a repeated period its wall-clock
+    // times can still run forwards -- `from` in the second pass, `to` in the first -- and the property defines the
+    // evaluation on the wall clock)
+    let v = u + window;
     let dt_to: DateTime<Tz> = obs_tz.from_utc_datetime(&ndt(v, now.1));
     let wall_v = ndt(v + spec.offset(v) as i64, now.1);
     if wall_v <= wall && window > 0 {
         w.probes.hit("window_shorter_than_fold");
+        hit = true;
+    }
+    if wall_v > wall && window < 0 {
+        w.probes.hit("window_backwards_in_absolute_time_forwards_on_the_wall_clock");
         hit = true;
     }
     let take = take.max(1) as usize;
@@ -517,6 +526,29 @@ where
             w.probes.hit("interval_collapsed_by_gap");
         }
         prev_end = Some(g.range.end.clone());
+    }
+    // --- the open-ended stream (`iter_from`): its first intervals, against the location-free one ---
+    {
+        let k_max = take.min(3);
+        let got: Vec<_> = oh_z.iter_from(dt_in.clone()).take(k_max).collect();
+        let want: Vec<_> = oh_n.iter_from(wall).take(k_max).collect();
+        w.probes.hit("open_ended_stream_compared");
+        if got.len() != want.len() {
+            return Err(("stream_length_mismatch".into(), format!("iter_from(utc {}) yields {} intervals among the first {k_max}, the location-free stream from wall {wall} yields {}", ndt(u, now.1), got.len(), want.len())));
+        }
+        for (k, (g, n)) in got.iter().zip(&want).enumerate() {
+            let ws = (spec.map_local(secs(n.range.start)), n.range.start.and_utc().timestamp_subsec_nanos());
+            let we = (spec.map_local(secs(n.range.end)), n.range.end.and_utc().timestamp_subsec_nanos());
+            let gs = (g.range.start.timestamp(), g.range.start.timestamp_subsec_nanos());
+            let ge = (g.range.end.timestamp(), g.range.end.timestamp_subsec_nanos());
+            w.fp.i64(ge.0);
+            if g.kind != n.kind || g.comments != n.comments || gs != ws || ge != we {
+                return Err((
+                    "stream_bounds_mismatch".into(),
+                    format!("interval #{k} of iter_from(utc {}): {:?} utc [{}, {}), expected {:?} wall [{}, {}) = utc [{}, {})", ndt(u, now.1), g.kind, ndt(gs.0, gs.1), ndt(ge.0, ge.1), n.kind, n.range.start, n.range.end, ndt(ws.0, ws.1), ndt(we.0, we.1)),
+                ));
+            }
+        }
     }
     if hit {
         w.jump_hits += 1;
